@@ -257,7 +257,7 @@ def run(chk):
             if seq != sc["expected"]:
                 raise tlc.MachineryError(f"{sc['name']}: sequential reference gives {seq}, scenario table says {sc['expected']}")
             nfail = 0
-            budget = None if not quick else 700
+            budget = 9000 if not quick else 700
             for pre, r in sched.explore(sc["make"], bound=2, budget=budget, rnd=rnd, sample_second=3 if quick else 40):
                 total += 1
                 chk.count((sc["name"], tuple(pre)))
